@@ -92,6 +92,10 @@ class RunTaskExecutable(Operation):
             }
             if slot is not None:
                 env_vars[SLOT_ENV_VARIABLE_NAME] = str(slot)
+            else:
+                # Do not leak a slot inherited from our own environment (e.g.,
+                # when Conductor itself is run by a task of an outer Conductor).
+                env_vars.pop(SLOT_ENV_VARIABLE_NAME, None)
 
             if self._record_output:
                 if slot is None:
